@@ -54,8 +54,11 @@ def gen_extract():
     txt = ("(* GENERATED from coq/extract/*.list -- the only file with extraction directives.\n"
            "   ExtrOcamlBasic only: bool/option/unit/list/prod/sumbool/sumor map to OCaml's own;\n"
            "   positive/N/Z/nat stay Coq's datatypes; no Extract Constant. *)\n"
-           "From JV Require Import %s.\nRequire Import ExtrOcamlBasic.\n"
-           "Cd \"../ocaml/extracted\".\nSeparate Extraction\n  %s.\nCd \"../../coq\".\n") % (" ".join(mods), "\n  ".join(names))
+           "From JV Require Import %s.\n%sRequire Import ExtrOcamlBasic.\n"
+           "Cd \"../ocaml/extracted\".\nSeparate Extraction\n  %s.\nCd \"../../coq\".\n") % (
+               " ".join(m for m in mods if os.path.exists(os.path.join(COQ, "theories", m + ".v")) or m == "Tables"),
+               "".join("From Coq Require Import %s.\n" % m for m in mods if not (os.path.exists(os.path.join(COQ, "theories", m + ".v")) or m == "Tables")),
+               "\n  ".join(names))
     os.makedirs(os.path.join(ROOT, "ocaml", "extracted"), exist_ok=True)
     p = os.path.join(COQ, "theories", "Extract.v")
     if not os.path.exists(p) or open(p).read() != txt:
